@@ -14,7 +14,9 @@ RULE = ('generated documents of three schema families (varying depth / width; ID
         'streamed chunks; nested unique scopes) in valid, single-fault and identity-fault variants + corpus instances; each '
         'document is processed through XMLResource(lazy=False) and XMLResource(lazy=1) (claimed) and lazy=2,3 (explored, '
         'reported, not claimed) x thin_lazy on/off x source kind {path, bytes, BytesIO} x api '
-        '{is_valid, iter_errors, decode lax (materialised), iter, iter_depth, iterfind}; a case = (document, '
+        '{is_valid, iter_errors, decode lax (materialised), iter, iter_depth, iterfind with a wildcard path / a named step / two named '
+        'steps (deeper than the lazy depth), iter_errors and iter_decode with path=}; one document in eight is 25-45 KB long '
+        '(several parser read buffers); a case = (document, '
         'lazy depth, thin, api); distinct non-trivial = distinct (family, fault kind, api, thin) combinations with at '
         'least two root children (several chunks)')
 ASSUMPTIONS = [
